@@ -666,6 +666,9 @@ func checkMain(args []string) int {
 
 func writeReplay(r *Replay) string {
 	dir := filepath.Join(root(), "replays")
+	if d := os.Getenv("VERIF_REPLAYS"); d != "" {
+		dir = d // mutant / seeded-change runs keep their replay files out of /verif/replays
+	}
 	_ = os.MkdirAll(dir, 0o755)
 	name := fmt.Sprintf("%s-%08x-%d.json", r.Property, uint32(core.FNV64(r.Signature)), r.RunSeed)
 	path := filepath.Join(dir, name)
